@@ -269,6 +269,13 @@ def serialise_oracle(res, scn):
         tok = out["token"]
         call = w.calls[tok]
         op = call["op"]
+        ho = out.get("_hdr_obj")
+        if ho is not None and list(ho[0]) != ho[1]:
+            # the caller's own header list came back changed: the next request built from
+            # it will not be the one the caller spells
+            w.violate("C03", "caller-header-list-modified",
+                      {"token": tok, "before": ho[1], "after": list(ho[0])})
+            return
         if op.get("illegal"):
             seen = tok in h1 or tok in h2r or tok in heads_h1
             # any byte of it on any wire?
